@@ -8,7 +8,8 @@
 (* and compares; the same runs are also validated by Rare_Trace.                 *)
 EXTENDS Rare, Json
 
-CONSTANTS MaxLen
+CONSTANTS MaxLen,
+          Stride, Pick    \* only the descriptors of residue class Pick modulo Stride are produced (1, 0: all)
 
 L(k, s, v) == k \o <<SEP>> \o s \o <<SEP>> \o v
 GPool == <<
@@ -21,8 +22,12 @@ GPool == <<
   L(<<32, 97>>, <<>>, <<45, 49>>),             \*  a||-1      leading space, empty sub-key, negative
   L(<<61, 98>>, <<121>>, <<50>>)               \* =b|y|2      leading '='
 >>
-Cd(cmd, ext, ig, grp, acc) == [cmd |-> cmd, ext |-> ext, ig |-> ig, iv |-> IF ig = 0 THEN <<>> ELSE <<121>>,
-                               grp |-> grp, acc |-> acc]
+Cd(cmd, ext, ig, grp, acc) == [cmd |-> cmd, mt |-> "re", ext |-> ext, delim |-> <<>>, ig |-> ig,
+                               iv |-> IF ig = 0 THEN <<>> ELSE <<121>>, grp |-> grp, acc |-> acc]
+\* strengthened family: matcher, atoms (4 {line} 5 {src} 6 {.} 7 {#} 8 {.#}), --delim
+CdX(cmd, mt, ext, delim, ig) == [cmd |-> cmd, mt |-> mt, ext |-> ext, delim |-> delim, ig |-> ig,
+                                 iv |-> IF ig = 0 THEN <<>> ELSE <<121>>, grp |-> 0, acc |-> <<>>]
+D_semi == <<59>>   D_cc == <<58, 58>>   D_dash == <<32, 45, 32>>   D_arrow == <<226, 134, 146>>
 GCmds == <<
   Cd("histogram", <<1>>, 0, 0, <<>>),
   Cd("histogram", <<1, 3>>, 0, 0, <<>>),
@@ -36,7 +41,30 @@ GCmds == <<
   Cd("analyze", <<3>>, 0, 0, <<>>),
   Cd("reduce", <<1, 2, 3>>, 0, 1, <<"count", "sum", "max">>),
   Cd("reduce", <<1, 2, 3>>, 0, 0, <<"count", "sum">>),
-  Cd("reduce", <<1, 2, 3>>, 0, 1, <<"sum", "last">>)
+  Cd("reduce", <<1, 2, 3>>, 0, 1, <<"sum", "last">>),
+  \* dissect / named groups
+  CdX("histogram", "dis", <<1, 3>>, <<>>, 0),
+  CdX("table", "ren", <<1, 2, 3>>, <<>>, 2),
+  CdX("bargraph", "dis", <<2, 1>>, <<>>, 0),
+  \* the JSON views of the match
+  CdX("histogram", "ren", <<6>>, <<>>, 0),
+  CdX("histogram", "dis", <<7>>, <<>>, 0),
+  CdX("histogram", "ren", <<8, 3>>, <<>>, 0),
+  CdX("table", "re", <<7, 6>>, <<>>, 0),
+  CdX("bargraph", "dis", <<1, 6>>, <<>>, 0),
+  \* --delim of one byte, several bytes, one non-ASCII character
+  CdX("table", "re", <<1, 2, 3>>, D_semi, 0),
+  CdX("table", "dis", <<1, 2, 3>>, D_cc, 0),
+  CdX("heatmap", "ren", <<1, 2, 3>>, D_dash, 0),
+  CdX("spark", "re", <<2, 1, 3>>, D_arrow, 0),
+  CdX("heatmap", "re", <<1, 2>>, D_cc, 2),
+  CdX("table", "ren", <<1, 6, 3>>, D_arrow, 0),
+  \* {line} / {src}: the expectation is that of the layout `lay`
+  CdX("histogram", "re", <<4>>, <<>>, 0),
+  CdX("histogram", "dis", <<5, 3>>, <<>>, 0),
+  CdX("table", "re", <<5, 4>>, <<>>, 0),
+  CdX("table", "ren", <<4, 1, 3>>, D_cc, 0),
+  CdX("bargraph", "re", <<1, 4>>, <<>>, 2)
 >>
 AccName(tag) == CASE tag = "count" -> <<110>> [] tag = "sum" -> <<115>> [] tag = "max" -> <<109, 120>>
                   [] tag = "last" -> <<108, 97, 115, 116>>
@@ -44,17 +72,33 @@ AccName(tag) == CASE tag = "count" -> <<110>> [] tag = "sum" -> <<115>> [] tag =
 VARIABLES seq, ci
 GInit == /\ seq \in UNION {[1..n -> 1..Len(GPool)] : n \in 0..MaxLen}
          /\ ci \in 1..Len(GCmds)
+         /\ (FoldLeft(+, 0, seq) * 5 + Len(seq) * 3 + ci) % Stride = Pick
 GNext == UNCHANGED <<seq, ci>>
+
+\* the layout of a layout-dependent descriptor: a function of the sequence (no further branching): the
+\* corpus is cut after `cut` lines into f0.log / f1.log, read in this or in the opposite order
+F0 == <<102, 48, 46, 108, 111, 103>>    F1 == <<102, 49, 46, 108, 111, 103>>
+LayFor(sq) ==
+  LET n   == Len(sq)
+      sum == FoldLeft(+, 0, sq)
+      cut == (sum + n) % (n + 1)
+      a   == [name |-> F0, lo |-> 1, hi |-> cut]
+      b   == [name |-> F1, lo |-> cut + 1, hi |-> n]
+  IN IF sum % 2 = 0 THEN <<a, b>> ELSE <<[b EXCEPT !.name = F0], [a EXCEPT !.name = F1]>>
 
 Desc ==
   LET c == GCmds[ci] IN
-  [pool |-> GPool, seq |-> seq, cmd |-> c.cmd, ext |-> c.ext, ig |-> c.ig, iv |-> c.iv, grp |-> c.grp,
-   acc |-> c.acc, gname |-> <<107>>, anames |-> [i \in 1..Len(c.acc) |-> AccName(c.acc[i])]]
+  [pool |-> GPool, seq |-> seq, cmd |-> c.cmd, mt |-> c.mt, ext |-> c.ext, delim |-> c.delim, ig |-> c.ig, iv |-> c.iv,
+   grp |-> c.grp, acc |-> c.acc, gname |-> <<107>>, anames |-> [i \in 1..Len(c.acc) |-> AccName(c.acc[i])]]
 Dump ==
   LET r == Desc
-      e == Expect(r)
+      dep == LayoutDep(CdOf(r))
+      lay == IF dep THEN LayFor(r.seq) ELSE <<>>
+      e == IF dep THEN ExpectLay(r, lay) ELSE Expect(r)
       es == ExitState(0, e.perr, e.matched)
-  IN PrintT("VFJ " \o ToJson([pool |-> r.pool, seq |-> r.seq, cmd |-> r.cmd, ext |-> r.ext, ig |-> r.ig, iv |-> r.iv,
+  IN PrintT("VFJ " \o ToJson([pool |-> r.pool, seq |-> r.seq, cmd |-> r.cmd, mt |-> r.mt, ext |-> r.ext, delim |-> r.delim,
+                              ig |-> r.ig, iv |-> r.iv,
                               grp |-> r.grp, acc |-> r.acc, gname |-> r.gname, anames |-> r.anames,
+                              lay |-> [k \in 1..Len(lay) |-> <<lay[k].lo, lay[k].hi>>],
                               expect |-> [csv |-> e.csv, code |-> es.code, msg |-> es.msg]]))
 =============================================================================
